@@ -36,6 +36,13 @@ func genSched(r *Rng, tier string, stat func(string)) []string {
 		}
 		var plans []string
 		used := map[int]bool{}
+		impatient := map[int]bool{}
+		if i%4 == 3 {
+			impatient[nw-1] = true
+			if nw > 3 {
+				impatient[nw-2] = true
+			}
+		}
 		for w := 0; w < nw; w++ {
 			nm := 1 + r.Intn(5)
 			var ops []string
@@ -51,9 +58,14 @@ func genSched(r *Rng, tier string, stat func(string)) []string {
 						break
 					}
 				}
-				if r.Intn(3) == 0 {
+				switch {
+				case impatient[w]:
+					// an impatient writer: Write under a context of a few hundred microseconds — it may give up while it waits
+					// for a lock (the call fails, nothing else may change) or expire during the write (the connection is closed)
+					ops = append(ops, fmt.Sprintf("I%d", sz))
+				case r.Intn(3) == 0:
 					ops = append(ops, fmt.Sprintf("S%dx%d", sz, 1+r.Intn(4)))
-				} else {
+				default:
 					ops = append(ops, fmt.Sprintf("W%d", sz))
 				}
 			}
@@ -162,6 +174,14 @@ func runSched(kv map[string]string) string {
 				if op[0] == 'W' {
 					n, _ := strconv.Atoi(op[1:])
 					e = c.Write(ctx, websocket.MessageBinary, schedPayload(w, seq, n))
+				} else if op[0] == 'I' {
+					n, _ := strconv.Atoi(op[1:])
+					ymu.Lock()
+					d := time.Duration(100+yr.Intn(600)) * time.Microsecond
+					ymu.Unlock()
+					ictx, ic := context.WithTimeout(ctx, d)
+					e = c.Write(ictx, websocket.MessageBinary, schedPayload(w, seq, n))
+					ic()
 				} else {
 					f := strings.Split(op[1:], "x")
 					n, _ := strconv.Atoi(f[0])
